@@ -17,7 +17,7 @@
         row-major re-indexing (`sum_range_mul`, one application per extra mode: the digits of a
         unit index of the Kronecker layer are the mixed-radix digits, `C01.eval_kronecker_layer`);
         only order 2 is proved here.  (The statement does not need `0 < rank`; the hypothesis is
-        kept as given.)
+        kept as given.)  Superseded by `tucker_formula` / `tucker_formula_fun` (every arity) below.
   * `tt_step`, `tt_chain_step`
       — tensor train: the sum layer with the block-diagonal ones matrix
         `block_diag(1_{1×rank}, …, 1_{1×rank})` makes output unit `i` the sum of the units of its
@@ -32,10 +32,33 @@
         proved about the compiler of logic circuits; it is carried by the correspondence only
         (model counts compared with brute-force enumeration).
   Proofs: `CirkitModel.Proofs.Templates`.
+
+  Second part (sections 11–16, end of the file): the same statements for the *whole* templates, for
+  every number of modes / every ordering, about the computable builders of
+  `CirkitModel.Model.Templates` (`Tpl.cpNode`, `Tpl.tuckerNode`, `Tpl.ttNode`, `Tpl.hmmNode`,
+  `Tpl.ffNode`), which mirror layer by layer what `cirkit/templates/tensor_factorizations.py` and
+  `cirkit/templates/pgms.py` build and which the driver executes (command `template`).
+  * `cpNode_eval` (full)        — CP, every arity `n` and rank.
+  * `tucker_formula` (full)     — Tucker, every arity: sum over flat core indices `c < rank ^ n`
+                                   with the mixed-radix digits of `c`;
+    `tucker_formula_fun` (full) — the same as a sum over multi-indices `f : Fin n → Fin rank`,
+                                   the core read at the row-major index `Σ_j f_j · rank^(n-1-j)`.
+  * `tt_formula` (full)         — tensor train, every `n = inner + 2 ≥ 2`: the left-to-right
+                                   matrix-chain recursion `Tpl.ttVec` / `Tpl.ttVal`;
+    `tt_joint` (full)           — the documented sum over all bond indices `r_0 … r_{n-2}`.
+  * `hmm_formula` (full)        — HMM, every non-empty ordering: the backward recursion
+                                   `Tpl.hmmBack` over the whole ordering;
+    `hmm_joint` (full)          — the sum over all hidden state sequences of
+                                   initial · transitions · emissions.
+  * `ff_formula` (full)         — fully factorised: `Π_i F_i(x_i)`.
+  * `template_evalV_*`          — the vectorised evaluator the driver runs returns these values.
+  Proofs: `CirkitModel.Proofs.TemplatesFull`.
 -/
 import Mathlib.Algebra.Order.Field.Rat
 import Mathlib.Tactic.NormNum
 import CirkitModel.Proofs.Templates
+import CirkitModel.Proofs.TemplatesFull
+import CirkitModel.Proofs.EvalV
 
 open Finset
 
@@ -127,5 +150,264 @@ example :
     (fun j => j.val) (fun v => v + 1)]
   simp only [Finset.sum_range_succ, Finset.sum_range_zero, Fin.prod_univ_two]
   norm_num
+
+/-! ## Whole templates, every arity / every ordering
+
+  Index conventions (the ones of the real code):
+  * an embedding factor is `A j r a` = entry `[r, a]` of the weight (shape `(rank, I_j)`) of the
+    embedding layer of mode `j`, whose variable id is `j`; `x j` is the index of mode `j`;
+  * everything is evaluated at output unit `0` of the single output layer. -/
+
+/-! ### 11. CP, every arity -/
+
+/-- CP (`cp(shape, rank)`, `n = len(shape)`): `Σ_r w_r Π_j A_j[r, x_j]`.  No hypothesis. -/
+theorem cpNode_eval (n rank : ℕ) (w : ℕ → R) (A : ℕ → ℕ → V → R) (x : ℕ → V) :
+    (Tpl.cpNode n rank w A).eval (Ops.ofCommSemiring R) x 0
+      = ∑ r ∈ Finset.range rank, w r * ∏ j : Fin n, A j.val r (x j.val) :=
+  Tpl.cpNode_eval_aux n rank w A x
+
+omit [CommSemiring R] in
+/-- `cpNode` is literally the tree `cp_formula` is about (with `vars j = j`). -/
+theorem cpNode_eq (n rank : ℕ) (w : ℕ → R) (A : ℕ → ℕ → V → R) :
+    Tpl.cpNode n rank w A
+      = Node.sum 1 rank 1 (fun _ c => w c)
+          (fun _ => Node.had n rank (fun j => Node.leaf j.val rank (A j.val))) := rfl
+
+/-! ### 12. Tucker, every arity -/
+
+/-- Tucker (`tucker(shape, rank)`, any `n = len(shape)`), `range (rank ^ n)` / `digit` form:
+    `Σ_{c < rank^n} core[c] · Π_j A_j[digit_j(c), x_j]` where `digit_j(c) = (c / rank^(n-1-j)) % rank`
+    (first mode most significant: `core` is the core tensor flattened in row-major order).
+    No hypothesis. -/
+theorem tucker_formula (n rank : ℕ) (core : ℕ → R) (A : ℕ → ℕ → V → R) (x : ℕ → V) :
+    (Tpl.tuckerNode n rank core A).eval (Ops.ofCommSemiring R) x 0
+      = ∑ c ∈ Finset.range (rank ^ n),
+          core c * ∏ j : Fin n, A j.val (digit rank n j.val c) (x j.val) :=
+  Tpl.tuckerNode_eval_digit n rank core A x
+
+/-- Tucker as the documented multi-sum: over all `f : Fin n → Fin rank`,
+    `core[r_1, …, r_n] · Π_j A_j[r_j, x_j]` with the core entry read at the row-major flat index
+    `Tpl.flatIdx rank n f = Σ_j f_j · rank^(n-1-j)`.  No hypothesis. -/
+theorem tucker_formula_fun (n rank : ℕ) (core : ℕ → R) (A : ℕ → ℕ → V → R) (x : ℕ → V) :
+    (Tpl.tuckerNode n rank core A).eval (Ops.ofCommSemiring R) x 0
+      = ∑ f : Fin n → Fin rank,
+          core (Tpl.flatIdx rank n f) * ∏ j : Fin n, A j.val (f j).val (x j.val) :=
+  Tpl.tuckerNode_eval_fun n rank core A x
+
+/-- the flat index is what it is said to be, is in range, and its digits are the multi-index -/
+theorem flatIdx_spec (k n : ℕ) (f : Fin n → Fin k) :
+    Tpl.flatIdx k n f = ∑ j : Fin n, (f j).val * k ^ (n - 1 - j.val)
+      ∧ Tpl.flatIdx k n f < k ^ n
+      ∧ ∀ j : Fin n, digit k n j.val (Tpl.flatIdx k n f) = (f j).val :=
+  ⟨rfl, Tpl.flatIdx_lt k n f, Tpl.digit_flatIdx k n f⟩
+
+/-! ### 13. tensor train, every `n ≥ 2` -/
+
+/-- Tensor train (`tensor_train(shape, rank)` with `n = inner + 2` modes, variables `0 … n-1`):
+    the circuit computes the left-to-right contraction
+    `v_0[r] = first[r, x_0]`, `v_{m+1}[q] = Σ_{r<rank} v_m[r] · G_{m+1}[q][r, x_{m+1}]`
+    (`G m q` = inner embedding number `q` of mode `m`, `rank` units indexed by `r`),
+    value `Σ_{r<rank} v_{n-2}[r] · last[r, x_{n-1}]` — `Tpl.ttVec` / `Tpl.ttVal`, unfolded by
+    `tt_vec_zero`, `tt_vec_succ`, `tt_val`.  `inner = 0` is the case `n = 2` (only the final dot
+    product).  No hypothesis. -/
+theorem tt_formula (inner rank : ℕ) (first : ℕ → V → R) (G : ℕ → ℕ → ℕ → V → R)
+    (last : ℕ → V → R) (x : ℕ → V) :
+    (Tpl.ttNode (Ops.ofCommSemiring R) inner rank first G last).eval (Ops.ofCommSemiring R) x 0
+      = Tpl.ttVal (Ops.ofCommSemiring R) inner rank first G last x :=
+  Tpl.ttNode_eval inner rank first G last x
+
+theorem tt_vec_zero (rank : ℕ) (first : ℕ → V → R) (G : ℕ → ℕ → ℕ → V → R) (x : ℕ → V) (r : ℕ) :
+    Tpl.ttVec (Ops.ofCommSemiring R) rank first G x 0 r = first r (x 0) := rfl
+
+theorem tt_vec_succ (rank : ℕ) (first : ℕ → V → R) (G : ℕ → ℕ → ℕ → V → R) (x : ℕ → V)
+    (m q : ℕ) :
+    Tpl.ttVec (Ops.ofCommSemiring R) rank first G x (m + 1) q
+      = ∑ r ∈ Finset.range rank,
+          Tpl.ttVec (Ops.ofCommSemiring R) rank first G x m r * G (m + 1) q r (x (m + 1)) :=
+  Tpl.ttVec_succ rank first G x m q
+
+theorem tt_val (inner rank : ℕ) (first : ℕ → V → R) (G : ℕ → ℕ → ℕ → V → R)
+    (last : ℕ → V → R) (x : ℕ → V) :
+    Tpl.ttVal (Ops.ofCommSemiring R) inner rank first G last x
+      = ∑ r ∈ Finset.range rank,
+          Tpl.ttVec (Ops.ofCommSemiring R) rank first G x inner r * last r (x (inner + 1)) :=
+  Tpl.ttVal_eq inner rank first G last x
+
+/-- Tensor train as the documented sum over all bond indices `r_0, …, r_{n-2}`
+    (`r : Fin (inner + 1) → Fin rank`):
+    `first[r_0, x_0] · Π_{i<inner} G_{i+1}[r_{i+1}][r_i, x_{i+1}] · last[r_{n-2}, x_{n-1}]`.
+    No hypothesis. -/
+theorem tt_joint (inner rank : ℕ) (first : ℕ → V → R) (G : ℕ → ℕ → ℕ → V → R)
+    (last : ℕ → V → R) (x : ℕ → V) :
+    (Tpl.ttNode (Ops.ofCommSemiring R) inner rank first G last).eval (Ops.ofCommSemiring R) x 0
+      = ∑ r : Fin (inner + 1) → Fin rank,
+          first (r 0).val (x 0)
+            * (∏ i : Fin inner,
+                G (i.val + 1) (r i.succ).val (r i.castSucc).val (x (i.val + 1)))
+            * last (r (Fin.last inner)).val (x (inner + 1)) := by
+  rw [tt_formula, Tpl.ttVal_joint]
+
+/-! ### 14. hidden Markov model, every non-empty ordering -/
+
+/-- HMM (`hmm(ordering, num_latent_states = K)`, ordering `v :: rest`): output unit `0` of the
+    circuit is the backward message `β_0[0]`, where for position `pos` (variable `u = ordering[pos]`)
+    `β_pos[o] = Σ_{j<K} T_pos[o, j] · (β_{pos+1}[j] · E_u[j](x_u))`, and
+    `β_{n-1}[o] = Σ_{j<K} T_{n-1}[o, j] · E_u[j](x_u)` at the last position — `Tpl.hmmBack`,
+    unfolded by `hmm_back_last`, `hmm_back_step`.  Variable `ordering[pos]` uses emission function
+    number `ordering[pos]` (`E u`: the input layer and per-variable arguments of variable id `u`)
+    and is read at `x (ordering[pos])`; `T pos` is the weight of the sum layer of position `pos`.
+    Only hypothesis: the ordering is non-empty (it is `v :: rest`). -/
+theorem hmm_formula (K : ℕ) (E : ℕ → ℕ → V → R) (T : ℕ → ℕ → ℕ → R) (v : ℕ) (rest : List ℕ)
+    (x : ℕ → V) :
+    (Tpl.hmmNode K E T (v :: rest)).eval (Ops.ofCommSemiring R) x 0
+      = Tpl.hmmBack (Ops.ofCommSemiring R) K E T x 0 v rest 0 :=
+  Tpl.hmmFrom_eval K E T x rest 0 v 0
+
+theorem hmm_back_last (K : ℕ) (E : ℕ → ℕ → V → R) (T : ℕ → ℕ → ℕ → R) (x : ℕ → V)
+    (pos u o : ℕ) :
+    Tpl.hmmBack (Ops.ofCommSemiring R) K E T x pos u [] o
+      = ∑ j ∈ Finset.range K, T pos o j * E u j (x u) :=
+  Tpl.hmmBack_nil K E T x pos u o
+
+theorem hmm_back_step (K : ℕ) (E : ℕ → ℕ → V → R) (T : ℕ → ℕ → ℕ → R) (x : ℕ → V)
+    (pos u w : ℕ) (rest : List ℕ) (o : ℕ) :
+    Tpl.hmmBack (Ops.ofCommSemiring R) K E T x pos u (w :: rest) o
+      = ∑ j ∈ Finset.range K, T pos o j
+          * (Tpl.hmmBack (Ops.ofCommSemiring R) K E T x (pos + 1) w rest j * E u j (x u)) :=
+  Tpl.hmmBack_cons K E T x pos u w rest o
+
+/-- HMM as the joint probability: the sum over all hidden state sequences
+    `z : Fin n → Fin K` (`n = rest.length + 1 = len(ordering)`) of
+    `T_0[0, z_0] · Π_{i<n-1} T_{i+1}[z_i, z_{i+1}] · Π_{i<n} E_{ordering[i]}[z_i](x_{ordering[i]})`:
+    row 0 of the first sum layer is the initial distribution, `T_{i+1}` the transition table into
+    position `i+1`, and position `i` emits variable `ordering[i]` with emission function number
+    `ordering[i]`.  Only hypothesis: the ordering is non-empty. -/
+theorem hmm_joint (K : ℕ) (E : ℕ → ℕ → V → R) (T : ℕ → ℕ → ℕ → R) (v : ℕ) (rest : List ℕ)
+    (x : ℕ → V) :
+    (Tpl.hmmNode K E T (v :: rest)).eval (Ops.ofCommSemiring R) x 0
+      = ∑ z : Fin (rest.length + 1) → Fin K,
+          T 0 0 (z 0).val
+            * (∏ i : Fin rest.length, T (i.val + 1) (z i.castSucc).val (z i.succ).val)
+            * ∏ i : Fin (rest.length + 1),
+                E ((v :: rest).get i) (z i).val (x ((v :: rest).get i)) := by
+  rw [hmm_formula, Tpl.hmmBack_joint]
+  refine Finset.sum_congr rfl (fun z _ => ?_)
+  congr 2
+  refine Finset.prod_congr rfl (fun i _ => ?_)
+  rw [Nat.zero_add, Nat.add_comm]
+
+/-! ### 15. fully factorised -/
+
+/-- Fully factorised (`fully_factorized(n)`): `Π_{i<n} F_i(x_i)` — variable id `i` uses unit
+    function number `i` (its own input layer / kwargs).  Holds for every `n` (for `n = 1` the
+    circuit is the single input layer; the real template rejects `n = 0`). -/
+theorem ff_formula (n : ℕ) (F : ℕ → V → R) (x : ℕ → V) :
+    (Tpl.ffNode n F).eval (Ops.ofCommSemiring R) x 0 = ∏ j : Fin n, F j.val (x j.val) :=
+  Tpl.ffNode_eval_aux n F x
+
+/-! ### 16. what the driver runs
+
+  The driver's `template` command evaluates the builders with `Node.evalV`; on these (well-formed,
+  single-output) trees entry 0 of the result is `Node.eval … 0`, over any operation record. -/
+
+theorem template_evalV_cp {S : Type} (o : Ops S) (n rank : ℕ) (w : ℕ → S) (A : ℕ → ℕ → V → S)
+    (x : ℕ → V) (d : S) :
+    ((Tpl.cpNode n rank w A).evalV o x).size = 1
+      ∧ ((Tpl.cpNode n rank w A).evalV o x).getD 0 d = (Tpl.cpNode n rank w A).eval o x 0 :=
+  ⟨(Node.evalV_size o x _).trans (Tpl.cpNode_wf n rank w A).2,
+    Node.evalV_getD o x _ (Tpl.cpNode_wf n rank w A).1 0
+      (by rw [(Tpl.cpNode_wf n rank w A).2]; exact Nat.one_pos) d⟩
+
+theorem template_evalV_tucker {S : Type} (o : Ops S) (n rank : ℕ) (core : ℕ → S)
+    (A : ℕ → ℕ → V → S) (x : ℕ → V) (d : S) :
+    ((Tpl.tuckerNode n rank core A).evalV o x).size = 1
+      ∧ ((Tpl.tuckerNode n rank core A).evalV o x).getD 0 d
+          = (Tpl.tuckerNode n rank core A).eval o x 0 :=
+  ⟨(Node.evalV_size o x _).trans (Tpl.tuckerNode_wf n rank core A).2,
+    Node.evalV_getD o x _ (Tpl.tuckerNode_wf n rank core A).1 0
+      (by rw [(Tpl.tuckerNode_wf n rank core A).2]; exact Nat.one_pos) d⟩
+
+theorem template_evalV_tt {S : Type} (o : Ops S) (inner rank : ℕ) (first : ℕ → V → S)
+    (G : ℕ → ℕ → ℕ → V → S) (last : ℕ → V → S) (x : ℕ → V) (d : S) :
+    ((Tpl.ttNode o inner rank first G last).evalV o x).size = 1
+      ∧ ((Tpl.ttNode o inner rank first G last).evalV o x).getD 0 d
+          = (Tpl.ttNode o inner rank first G last).eval o x 0 :=
+  ⟨(Node.evalV_size o x _).trans (Tpl.ttNode_wf o inner rank first G last).2,
+    Node.evalV_getD o x _ (Tpl.ttNode_wf o inner rank first G last).1 0
+      (by rw [(Tpl.ttNode_wf o inner rank first G last).2]; exact Nat.one_pos) d⟩
+
+theorem template_evalV_hmm {S : Type} (o : Ops S) (K : ℕ) (E : ℕ → ℕ → V → S)
+    (T : ℕ → ℕ → ℕ → S) (v : ℕ) (rest : List ℕ) (x : ℕ → V) (d : S) :
+    ((Tpl.hmmNode K E T (v :: rest)).evalV o x).size = 1
+      ∧ ((Tpl.hmmNode K E T (v :: rest)).evalV o x).getD 0 d
+          = (Tpl.hmmNode K E T (v :: rest)).eval o x 0 :=
+  ⟨(Node.evalV_size o x _).trans (Tpl.hmmNode_wf K E T v rest).2,
+    Node.evalV_getD o x _ (Tpl.hmmNode_wf K E T v rest).1 0
+      (by rw [(Tpl.hmmNode_wf K E T v rest).2]; exact Nat.one_pos) d⟩
+
+theorem template_evalV_ff {S : Type} (o : Ops S) (n : ℕ) (F : ℕ → V → S) (x : ℕ → V) (d : S) :
+    ((Tpl.ffNode n F).evalV o x).size = 1
+      ∧ ((Tpl.ffNode n F).evalV o x).getD 0 d = (Tpl.ffNode n F).eval o x 0 :=
+  ⟨(Node.evalV_size o x _).trans (Tpl.ffNode_wf n F).2,
+    Node.evalV_getD o x _ (Tpl.ffNode_wf n F).1 0
+      (by rw [(Tpl.ffNode_wf n F).2]; exact Nat.one_pos) d⟩
+
+/-! ### non-vacuity: concrete instances over ℕ (index tuple `x = (1, 0, 1, 1, …)`)
+
+  Each instance is evaluated twice: the circuit directly (`decide` runs `Node.eval`), and through
+  the theorem (the right-hand side is evaluated).  The numbers were also recomputed outside Lean. -/
+
+/-- the index tuple used below: `x_1 = 0`, every other `x_v = 1` -/
+def xs : ℕ → ℕ := fun v => if v = 1 then 0 else 1
+
+/-- `cpNode_eval`: three modes, rank 2, weights `(1, 2)` -/
+example : (Tpl.cpNode 3 2 (fun c => c + 1) (fun j r (a : ℕ) => (j + 1) * (r + 1) + a)).eval
+    (Ops.ofCommSemiring ℕ) xs 0 = 184 := by decide
+example : (Tpl.cpNode 3 2 (fun c => c + 1) (fun j r (a : ℕ) => (j + 1) * (r + 1) + a)).eval
+    (Ops.ofCommSemiring ℕ) xs 0 = 184 := by rw [cpNode_eval]; decide
+
+/-- `tucker_formula`, `tucker_formula_fun`: three modes, rank 2, core `1 … 8` -/
+example : (Tpl.tuckerNode 3 2 (fun c => c + 1) (fun j r (a : ℕ) => (j + 1) * (r + 1) + a)).eval
+    (Ops.ofCommSemiring ℕ) xs 0 = 1772 := by decide
+example : (Tpl.tuckerNode 3 2 (fun c => c + 1) (fun j r (a : ℕ) => (j + 1) * (r + 1) + a)).eval
+    (Ops.ofCommSemiring ℕ) xs 0 = 1772 := by rw [tucker_formula]; decide
+example : (Tpl.tuckerNode 3 2 (fun c => c + 1) (fun j r (a : ℕ) => (j + 1) * (r + 1) + a)).eval
+    (Ops.ofCommSemiring ℕ) xs 0 = 1772 := by rw [tucker_formula_fun]; decide
+
+/-- `tt_formula`, `tt_joint`: `n = 2` (dot product only), `n = 3`, `n = 4`; rank 2 -/
+example : (Tpl.ttNode (Ops.ofCommSemiring ℕ) 0 2 (fun r (a : ℕ) => r + a + 1)
+    (fun m q r a => q + 2 * r + a + m) (fun r a => 2 * r + a + 1)).eval
+    (Ops.ofCommSemiring ℕ) xs 0 = 11 := by decide
+example : (Tpl.ttNode (Ops.ofCommSemiring ℕ) 1 2 (fun r (a : ℕ) => r + a + 1)
+    (fun m q r a => q + 2 * r + a + m) (fun r a => 2 * r + a + 1)).eval
+    (Ops.ofCommSemiring ℕ) xs 0 = 86 := by decide
+example : (Tpl.ttNode (Ops.ofCommSemiring ℕ) 2 2 (fun r (a : ℕ) => r + a + 1)
+    (fun m q r a => q + 2 * r + a + m) (fun r a => 2 * r + a + 1)).eval
+    (Ops.ofCommSemiring ℕ) xs 0 = 786 := by rw [tt_formula]; decide
+example : (Tpl.ttNode (Ops.ofCommSemiring ℕ) 2 2 (fun r (a : ℕ) => r + a + 1)
+    (fun m q r a => q + 2 * r + a + m) (fun r a => 2 * r + a + 1)).eval
+    (Ops.ofCommSemiring ℕ) xs 0 = 786 := by rw [tt_joint]; decide
+
+/-- `hmm_formula`, `hmm_joint`: ordering `(2, 0, 1)`, two latent states; and a single variable
+    with id 5 -/
+example : (Tpl.hmmNode 2 (fun v r (a : ℕ) => v + r + a + 1) (fun pos o j => pos + 2 * o + j + 1)
+    [2, 0, 1]).eval (Ops.ofCommSemiring ℕ) xs 0 = 6936 := by decide
+example : (Tpl.hmmNode 2 (fun v r (a : ℕ) => v + r + a + 1) (fun pos o j => pos + 2 * o + j + 1)
+    [2, 0, 1]).eval (Ops.ofCommSemiring ℕ) xs 0 = 6936 := by rw [hmm_formula]; decide
+example : (Tpl.hmmNode 2 (fun v r (a : ℕ) => v + r + a + 1) (fun pos o j => pos + 2 * o + j + 1)
+    [2, 0, 1]).eval (Ops.ofCommSemiring ℕ) xs 0 = 6936 := by rw [hmm_joint]; decide
+example : (Tpl.hmmNode 2 (fun v r (a : ℕ) => v + r + a + 1) (fun pos o j => pos + 2 * o + j + 1)
+    [5]).eval (Ops.ofCommSemiring ℕ) xs 0 = 23 := by rw [hmm_joint]; decide
+
+/-- `ff_formula`: three variables; one variable -/
+example : (Tpl.ffNode 3 (fun i (a : ℕ) => i + a + 2)).eval (Ops.ofCommSemiring ℕ) xs 0 = 45 := by
+  rw [ff_formula]; decide
+example : (Tpl.ffNode 1 (fun i (a : ℕ) => i + a + 2)).eval (Ops.ofCommSemiring ℕ) xs 0 = 3 := by
+  decide
+
+/-- the order of the ordering matters (per-variable emission functions are looked up by id):
+    the orderings `(2, 0, 1)` and `(0, 1, 2)` give different values on the same instance -/
+example : (Tpl.hmmNode 2 (fun v r (a : ℕ) => v + r + a + 1) (fun pos o j => pos + 2 * o + j + 1)
+    [0, 1, 2]).eval (Ops.ofCommSemiring ℕ) xs 0 ≠ 6936 := by decide
 
 end Cirkit.C20
